@@ -55,6 +55,12 @@ func c04Case(r *evid.Run, tier string, idx int, g *rng.R) {
 		o.XMLSafe, o.NoAdjText = true, true
 	}
 	d := adoc.Generate(g, o)
+	deep := idx%40 == 18
+	if deep {
+		adoc.Deepen(g, d, rng.Pick(g, []int{15, 16, 17, 33, 64, 65, 130, 257, 1000}))
+		d.Finish()
+		r.Count("cases_with_a_deep_chain", 1)
+	}
 	w, err := newWorld(d)
 	if err == nil && idx%4 == 1 {
 		// every fourth case goes through the XML text and xsel.ReadXml (R-xml): string-values as parsed
@@ -221,7 +227,8 @@ func c04Case(r *evid.Run, tier string, idx int, g *rng.R) {
 	}
 	// the typed entry points: ExecAsString / ExecAsNumber are string() / number() of the result,
 	// ExecAsNodeset is the node-set itself or an error for the three other types
-	{
+	// (not on the deep-chain documents: random multi-step paths are cubic in their depth)
+	if !deep {
 		elems, attrs, targets := vocab(d)
 		cfg := &xast.Cfg{Elems: elems, Attrs: attrs, Prefixes: []string{"p", "q"}, Targets: targets, MaxSteps: 3, MaxDepth: 1, PredPct: 20, Abbrev: 50,
 			Unions: true, Filters: true, Funcs: xast.AllFuncs, StrLits: []string{"", "a", "1", " 2 ", "12.5"}, NumLits: []float64{0, 1, 2, 0.5, 1e21, 1e-7}}
